@@ -22,6 +22,7 @@ import (
 
 // SDPs (sprop sets included so that the demuxer/flv muxer are "ready")
 const SdpH264 = "v=0\r\no=- 0 0 IN IP4 127.0.0.1\r\ns=No Name\r\nc=IN IP4 127.0.0.1\r\nt=0 0\r\nm=video 0 RTP/AVP 96\r\na=rtpmap:96 H264/90000\r\na=fmtp:96 packetization-mode=1; sprop-parameter-sets=Z2QAH6zZQFAFuhAAAAMAEAAAAwPI8YMZYA==,aO+8sA==; profile-level-id=64001F\r\na=control:streamid=0\r\nm=audio 0 RTP/AVP 97\r\na=rtpmap:97 MPEG4-GENERIC/44100/2\r\na=fmtp:97 profile-level-id=1;mode=AAC-hbr;sizelength=13;indexlength=3;indexdeltalength=3; config=121056E500\r\na=control:streamid=1\r\n"
+
 // SdpH264NoSprop: the parameter sets come in band only (the stream's own depacketizer adopts and decodes them)
 const SdpH264NoSprop = "v=0\r\no=- 0 0 IN IP4 127.0.0.1\r\ns=No Name\r\nc=IN IP4 127.0.0.1\r\nt=0 0\r\nm=video 0 RTP/AVP 96\r\na=rtpmap:96 H264/90000\r\na=fmtp:96 packetization-mode=1\r\na=control:streamid=0\r\nm=audio 0 RTP/AVP 97\r\na=rtpmap:97 MPEG4-GENERIC/44100/2\r\na=fmtp:97 profile-level-id=1;mode=AAC-hbr;sizelength=13;indexlength=3;indexdeltalength=3; config=121056E500\r\na=control:streamid=1\r\n"
 const SdpH265 = "v=0\r\no=- 0 0 IN IP4 127.0.0.1\r\ns=No Name\r\nc=IN IP4 127.0.0.1\r\nt=0 0\r\nm=video 0 RTP/AVP 96\r\na=rtpmap:96 H265/90000\r\na=control:streamid=0\r\n"
@@ -256,15 +257,28 @@ type Rec struct {
 	closeIn   chan struct{} // closed when Close was entered for the first time
 	closeOnce sync.Once
 	stopped   bool // stress runs: the script stopped this consumer itself
+	blocked   int32
+	// SelfStopAt: when about to record the n-th packet (1-based) the consumer stops its own consumption instead
+	SelfStopAt int
 }
+
+// Blocked: the delivery goroutine sits inside Consume (the consumer is stalled)
+func (r *Rec) Blocked() bool { return atomic.LoadInt32(&r.blocked) == 1 }
 
 func (r *Rec) Consume(p media.Pack) {
 	for atomic.LoadInt32(&r.stalled) == 1 {
+		atomic.StoreInt32(&r.blocked, 1)
 		<-r.gate
 	}
+	atomic.StoreInt32(&r.blocked, 0)
 	r.mu.Lock()
 	n := len(r.delivered) + 1
 	r.mu.Unlock()
+	if r.SelfStopAt != 0 && n == r.SelfStopAt {
+		// what a transport does on a write error: it closes itself, which stops the consumption
+		r.world.S.StopConsume(r.CID)
+		return
+	}
 	if r.PanicAt != 0 && n == r.PanicAt {
 		panic("verif: consumer panic on request")
 	}
@@ -300,7 +314,7 @@ func (r *Rec) Close() error {
 	}
 	return nil
 }
-func (r *Rec) Stall()       { atomic.StoreInt32(&r.stalled, 1) }
+func (r *Rec) Stall() { atomic.StoreInt32(&r.stalled, 1) }
 func (r *Rec) Resume() {
 	atomic.StoreInt32(&r.stalled, 0)
 	select {
